@@ -59,6 +59,33 @@ theorem isValid_slot_level (s : Sched.St) (reqs : List (Sched.LocKey × Hardware
   simp only [Sched.isValid, hq, hc, slotFree]
   by_cases h : (Sched.runningJobs s step tag lvl).length < lvl.slots.getD slotsDefault <;> simp [h, pure, Except.pure]
 
+/-- **what `_allocate_job` does to the books of one location** (`hardware_locations[loc] += hardware[key]`): cores,
+    memory and every mount point go up by exactly the requirement's amounts -/
+theorem allocate_adds_exact (cur h r : Hardware) (hadd : cur.add h = .ok r) :
+    r.cores = cur.cores + h.cores ∧ r.memory = cur.memory + h.memory ∧
+    ∀ μ, mountTotal r.storage μ = mountTotal cur.storage μ + mountTotal h.storage μ :=
+  add_totals_lem cur h r hadd
+
+/-- the model's `_allocate_job` loop on a location without inner levels: the job is listed there and the books of the
+    location get `+ requirement` (or the normalised requirement when the location had no books yet) -/
+theorem allocLevels_single (reqs : List (Sched.LocKey × Hardware)) (job : Nat) (lvl : Sched.Level) (s : Sched.St) (h : Hardware)
+    (hq : Sched.assocGet reqs (lvl.dep, lvl.name) = some h) :
+    Sched.allocLevels reqs job [lvl] s =
+      let s1 := { s with locJobs := Sched.appendJob s.locJobs (lvl.dep, lvl.name) job }
+      match Sched.assocGet s.reserved lvl.name with
+      | some cur =>
+          match cur.add h with
+          | .ok r => ({ s1 with reserved := Sched.assocSet s1.reserved lvl.name r }, none)
+          | .error e => (s1, some (.hw e))
+      | none =>
+          match h.normalized with
+          | .ok r => ({ s1 with reserved := Sched.assocSet s1.reserved lvl.name r }, none)
+          | .error e => (s1, some (.hw e)) := by
+  simp only [Sched.allocLevels, hq]
+  cases hc : Sched.assocGet s.reserved lvl.name with
+  | none => simp only []; cases h.normalized <;> rfl
+  | some cur => simp only []; cases cur.add h <;> rfl
+
 /-- **bookkeeping invariant** (every history that follows the protocol, every configuration): at every location the
     reserved amount is what the occupying jobs were given there plus the measured usage left by finished jobs -/
 theorem reserved_eq_sum (cap : Loc → Rat) (hcap : ∀ ℓ, 0 ≤ cap ℓ) (ops : List Op) (hok : HistoryOk cap init ops) (ℓ : Loc) :
